@@ -151,6 +151,33 @@ def suite_mem(rng, tier):
             for a in seq:
                 emit(s, a, [])
             out.append(s)
+    # saturation family: free list full while slots are occupied, then every pair of operations,
+    # then provisioning again (the capacity bound must still hold)
+    for slots in (1, 2, 3):
+        cap = slots + 2
+        fids = [0, 1, slots, slots + 1]
+        alpha2 = [("prov", 8), ("newpdu",)] + [("newfrag", f) for f in fids[:3]] + [("take", f) for f in fids[:3]] \
+            + [("save", 1, None), ("save", 2, None), ("save", 1, fids[2]), ("release", 1), ("release", 2)]
+        pairs = list(itertools.product(alpha2, repeat=2))
+        if tier == "quick":
+            pairs = rng.sample(pairs, 70)
+        for a, b in pairs:
+            s = Session("memsat%d" % n)
+            n += 1
+            s.dec_new(slots, 8, None)
+            for k in range(cap):
+                s.prov(8, k)
+            s.mem_new_frag(0, 3, 50, 0x0800, LBL_A6)       # handle 0
+            s.mem_save(0, None)
+            s.prov(8, 99)                                   # free list full again, slot 0 occupied
+            emit(s, a, [])
+            emit(s, b, [])
+            s.prov(8, 100)
+            s.prov(8, 101)
+            s.dec_newpdu()
+            s.prov(8, 102)
+            s.prov(8, 103)
+            out.append(s)
     for r in range(300 if tier == "quick" else 5000):
         slots = rng.choice([0, 1, 2, 3, 4, 7])
         s = Session("memr%d" % r)
